@@ -192,7 +192,7 @@ ID_CONCAT = ["1", "11", "12", "2", "a", "aa", "ab", "b"]
 
 @st.composite
 def register_specs(draw, n=(1, 6), dim=None, layout=None, mappable=False,
-                   ids=None, spacing=5.0, int_ids=False):
+                   ids=None, spacing=5.0, int_ids=False, tiny_noise=False):
     dim = dim or draw(st.sampled_from([2, 2, 3]))
     k = draw(st.integers(*n))
     pts = []
@@ -203,7 +203,11 @@ def register_specs(draw, n=(1, 6), dim=None, layout=None, mappable=False,
             continue
         seen.add(g)
         jitter = draw(st.sampled_from([0.0, 0.0, 0.3, -0.7]))
-        pts.append([gi * spacing + (jitter if j == 0 else 0.0) for j, gi in enumerate(g)])
+        pt = [gi * spacing + (jitter if j == 0 else 0.0) for j, gi in enumerate(g)]
+        if tiny_noise:
+            # numerical noise below the 1e-6 um precision (what rotating a register leaves behind)
+            pt = [v + draw(st.sampled_from([0.0, 0.0, 3e-9, -2e-9, 4e-7, -4e-7])) for v in pt]
+        pts.append(pt)
     if ids is None:
         id_kind = draw(st.sampled_from(["q", "q", "pool", "q", "q", "pool", "concat"]))
         id_kind_pool = id_kind == "pool"
@@ -217,7 +221,7 @@ def register_specs(draw, n=(1, 6), dim=None, layout=None, mappable=False,
     else:
         idl = ids[:k]
         id_kind_pool = False
-    if int_ids and draw(st.integers(0, 2)) == 0:
+    if int_ids and (int_ids >= 2 or draw(st.integers(0, 2)) == 0):
         # integer labels 0..k-1 in a permuted order (labels that look like positions)
         idl = list(draw(st.permutations(list(range(k)))))
         if draw(st.integers(0, 3)) == 0:
@@ -387,6 +391,11 @@ def _waveform_specs(draw, d, lo, hi, nonneg=False, depth=0, kinds=None,
                 ["cubic"] if n >= 4 else [])
             out["interp"] = "interp1d"
             out["ikw"] = {"kind": draw(st.sampled_from(kinds_ok))}
+            if out.get("times") and draw(st.booleans()):
+                # (time, value) pairs given in another order: interp1d sorts them together
+                order = draw(st.permutations(list(range(len(out["times"])))))
+                out["times"] = [out["times"][i] for i in order]
+                out["values"] = [out["values"][i] for i in order]
         return out
     if k == "custom":
         n = d
@@ -579,6 +588,8 @@ def draw_op(draw, S: GState, P: dict):
         name = f"ch{S.names}"
         if draw(st.integers(0, 19)) == 19 and S.declared:
             name = S.declared[0]["name"]  # name collision (must be refused)
+        elif draw(st.integers(0, 29)) == 29 and "" not in [c["name"] for c in S.declared]:
+            name = ""  # the empty string is a name like any other
         S.names += 1
         op = dict(op="declare", name=name, cid=cid, style=style)
         tgt = None
